@@ -24,7 +24,7 @@ func init() {
 		Explanation: "Decides the consistency of the signature-payload path: (matches-source-coverage) every exported field encode(o,false) reads outside the signature-only branches is compared in matchesSource (otherwise a mutated object " +
 			"is verified against the stale raw bytes) and the signature fields are not compared; (strip-on-match) EncodeWithoutSignature reaches stripObjectSignatures only on the matchesSource()==true edge and otherwise re-encodes without signatures; " +
 			"(signature-header-set) isSignatureHeader strips exactly the keys the scanners route to Signature/SignatureSHA256; (view-not-retained) the stripping routines never use a bufio view after the next read, and treat no partial line " +
-			"(bufio.ErrBufferFull) as a complete one. Not decided: that the stripped bytes equal git's payload for every header placement.",
+			"(bufio.ErrBufferFull) as a complete one; (signature-at-offset-zero) in Tag.Decode the statement that stores body[at:] as the signature is reachable under at == 0, the position of the inline signature of a tag with an empty message. Not decided: that the stripped bytes equal git's payload for every header placement.",
 		Assumptions: []string{},
 		Run:         runC03,
 	})
